@@ -24,8 +24,8 @@ func genHist(t *rapid.T, tier string, o core.GenOpts, w core.OpWeights, quickOps
 	if tier == "thorough" {
 		maxOps = thoroughOps
 	}
-	c.Fill = core.GenFill(t, len(c.Cfg.Pool()), fillMax)
-	c.Prog = core.GenProgram(t, w, maxOps, slots)
+	c.Fill = core.GenFillCfg(t, c.Cfg, fillMax)
+	c.Prog = core.GenProgram(t, core.WithBulk(w, c.Cfg), maxOps, slots)
 	return c
 }
 
